@@ -90,6 +90,21 @@ class MathNP:
     """numpy stand-in for scalar closed-form code"""
     pi = math.pi
     float64 = 'f8'
+    inf = math.inf
+    nan = math.nan
+
+    @staticmethod
+    def isfinite(v):
+        # symbolic values range over the reals (and integers): always finite, never NaN
+        return True if is_sym(v) else math.isfinite(v)
+
+    @staticmethod
+    def isnan(v):
+        return False if is_sym(v) else math.isnan(v)
+
+    @staticmethod
+    def isinf(v):
+        return False if is_sym(v) else math.isinf(v)
 
     @staticmethod
     def log(v):
